@@ -138,8 +138,11 @@ def c07_r4(ctx):
         lp = loops[0]
         # the searcher iterated is the caller's or self.searcher()
         svals = [norm.canon(v) if v is not None else "?" for v in norm.assigned_names(f.node).get(norm.canon(norm.receiver(lp.iter)) if isinstance(lp.iter, ast.Call) else "", [])]
-        ok = A.eq(lp.iter, "s.docs_for_query(q, for_deletion=True)") and A.eq(lp.target, "docnum") and len(lp.body) == 2 and \
-            A.eq(lp.body[0], "self.delete_document(docnum)") and A.eq(lp.body[1], "count += 1") and \
+        dels = [st for st in lp.body if A.eq(st, "self.delete_document(docnum)")] if A.eq(lp.target, "docnum") else []
+        incs = [st for st in ast.walk(f.node) if isinstance(st, ast.AugAssign)]
+        ok = A.eq(lp.iter, "s.docs_for_query(q, for_deletion=True)") and len(dels) == 1 and \
+            len(incs) == 1 and incs[0] in lp.body and A.eq(incs[0], "count += 1") and \
+            not any(isinstance(x, (ast.Continue, ast.Break, ast.Return)) for x in ast.walk(lp)) and \
             A.has(pm.stmts_of(f.node), "count = 0") and sorted(svals) == ["searcher", "self.searcher()"]
     rets = [r.value for r in returns_of(f)]
     ctx.ob(f, ok and len(rets) == 1 and A.eq(rets[0], "count"), "for docnum in docs_for_query(q, for_deletion=True): delete_document(docnum); count += 1; return count")
